@@ -784,3 +784,282 @@ Proof.
     + destruct Snd as [->|[]]. reflexivity.
     + lia.
 Qed.
+
+(** ---- nothing after unsubscribing ---- *)
+(** the subscriptions of a connection only grow by its own SUBSCRIBE / PSUBSCRIBE *)
+Definition no_resub_ch (c : Z) (ch : bytes) (o : psop) : Prop :=
+  match o with OSub c' l => c' = c -> ~ In ch l | _ => True end.
+Definition no_resub_pat (c : Z) (p : bytes) (o : psop) : Prop :=
+  match o with OPSub c' l => c' = c -> ~ In p l | _ => True end.
+Definition not_sub_by (c : Z) (o : psop) : Prop :=
+  match o with OSub c' _ | OPSub c' _ => c' <> c | _ => True end.
+
+Lemma subscribe_subs s c names c' :
+  (forall n, In n (chan_subs (snd (subscribe s c names)) c') <->
+             In n (chan_subs s c') \/ (c' = c /\ In n names)) /\
+  pat_subs (snd (subscribe s c names)) c' = pat_subs s c'.
+Proof.
+  unfold subscribe, conn_info, chan_subs, pat_subs. fold (cinfo (ps_conns s) c).
+  destruct (sub_loop c names _ _ (ps_ch s)) as [[rs mine] g] eqn:E.
+  destruct (sub_loop_spec _ _ _ _ _ _ _ _ E) as [I1 _]. cbn [snd ps_conns].
+  destruct (Z_dec c' c) as [->|N].
+  - rewrite cinfo_cset_eq. simpl. split; [|reflexivity]. intros n. rewrite I1. tauto.
+  - rewrite cinfo_cset_neq by exact N. split; [|reflexivity]. intros n. tauto.
+Qed.
+Lemma psubscribe_subs s c names c' :
+  (forall n, In n (pat_subs (snd (psubscribe s c names)) c') <->
+             In n (pat_subs s c') \/ (c' = c /\ In n names)) /\
+  chan_subs (snd (psubscribe s c names)) c' = chan_subs s c'.
+Proof.
+  unfold psubscribe, conn_info, chan_subs, pat_subs. fold (cinfo (ps_conns s) c).
+  destruct (sub_loop c names _ _ (ps_pat s)) as [[rs mine] g] eqn:E.
+  destruct (sub_loop_spec _ _ _ _ _ _ _ _ E) as [I1 _]. cbn [snd ps_conns].
+  destruct (Z_dec c' c) as [->|N].
+  - rewrite cinfo_cset_eq. simpl. split; [|reflexivity]. intros n. rewrite I1. tauto.
+  - rewrite cinfo_cset_neq by exact N. split; [|reflexivity]. intros n. tauto.
+Qed.
+Lemma unsubscribe_subs s c names c' :
+  (forall n, In n (chan_subs (snd (unsubscribe s c names)) c') <->
+             In n (chan_subs s c') /\
+             ~ (c' = c /\ In n (match names with Some l => l | None => bsort (chan_subs s c) end))) /\
+  pat_subs (snd (unsubscribe s c names)) c' = pat_subs s c'.
+Proof.
+  unfold unsubscribe, chan_subs, pat_subs.
+  destruct (clookup c (ps_conns s)) as [info|] eqn:L.
+  - pose proof (cinfo_lookup _ _ _ L) as CI. rewrite CI.
+    destruct (unsub_loop c _ (si_ch info) _ (ps_ch s)) as [[rs mine] g] eqn:E.
+    destruct (unsub_loop_spec _ _ _ _ _ _ _ _ E) as [I1 _]. cbn [snd ps_conns].
+    fold (conns_after c mine (si_pat info) (ps_conns s)).
+    destruct (Z_dec c' c) as [->|N].
+    + rewrite cinfo_after_eq, CI. simpl. split; [|reflexivity]. intros n. rewrite I1. tauto.
+    + rewrite cinfo_after_neq by exact N. split; [|reflexivity]. intros n. tauto.
+  - cbn [snd]. split; [|reflexivity]. intros n. split; [|tauto]. intros H. split; [exact H|].
+    intros [-> _]. unfold cinfo in H. rewrite L in H. exact H.
+Qed.
+Lemma punsubscribe_subs s c names c' :
+  (forall n, In n (pat_subs (snd (punsubscribe s c names)) c') <->
+             In n (pat_subs s c') /\
+             ~ (c' = c /\ In n (match names with Some l => l | None => bsort (pat_subs s c) end))) /\
+  chan_subs (snd (punsubscribe s c names)) c' = chan_subs s c'.
+Proof.
+  unfold punsubscribe, chan_subs, pat_subs.
+  destruct (clookup c (ps_conns s)) as [info|] eqn:L.
+  - pose proof (cinfo_lookup _ _ _ L) as CI. rewrite CI.
+    destruct (unsub_loop c _ (si_pat info) _ (ps_pat s)) as [[rs mine] g] eqn:E.
+    destruct (unsub_loop_spec _ _ _ _ _ _ _ _ E) as [I1 _]. cbn [snd ps_conns].
+    fold (conns_after c (si_ch info) mine (ps_conns s)).
+    destruct (Z_dec c' c) as [->|N].
+    + rewrite cinfo_after_eq, CI. simpl. split; [|reflexivity]. intros n. rewrite I1. tauto.
+    + rewrite cinfo_after_neq by exact N. split; [|reflexivity]. intros n. tauto.
+  - cbn [snd]. split; [|reflexivity]. intros n. split; [|tauto]. intros H. split; [exact H|].
+    intros [-> _]. unfold cinfo in H. rewrite L in H. exact H.
+Qed.
+Lemma unsubscribe_all_subs s c c' :
+  chan_subs (unsubscribe_all s c) c' = (if c' =? c then [] else chan_subs s c') /\
+  pat_subs (unsubscribe_all s c) c' = (if c' =? c then [] else pat_subs s c').
+Proof.
+  unfold unsubscribe_all, chan_subs, pat_subs. cbn [ps_conns].
+  destruct (Z.eqb_spec c' c) as [->|N].
+  - rewrite cinfo_cremove_eq. auto.
+  - rewrite cinfo_cremove_neq by exact N. auto.
+Qed.
+
+Lemma step_keeps_unsub_ch choice s o c ch :
+  no_resub_ch c ch o -> ~ In ch (chan_subs s c) -> ~ In ch (chan_subs (snd (ps_step choice s o)) c).
+Proof.
+  intros NR H. destruct o; simpl.
+  - pose proof (proj1 (subscribe_subs s c0 names c) ch) as X. destruct (subscribe s c0 names). simpl in *.
+    rewrite X. intros [Y|[-> Y]]; [contradiction | exact (NR eq_refl Y)].
+  - pose proof (proj2 (psubscribe_subs s c0 names c)) as X. destruct (psubscribe s c0 names). simpl in *. rewrite X. exact H.
+  - pose proof (proj1 (unsubscribe_subs s c0 names c) ch) as X. destruct (unsubscribe s c0 names). simpl in *. rewrite X. tauto.
+  - pose proof (proj2 (punsubscribe_subs s c0 names c)) as X. destruct (punsubscribe s c0 names). simpl in *. rewrite X. exact H.
+  - rewrite (proj1 (unsubscribe_all_subs s c0 c)). destruct (c =? c0); [simpl; tauto | exact H].
+  - exact H.
+Qed.
+Lemma step_keeps_unsub_pat choice s o c p :
+  no_resub_pat c p o -> ~ In p (pat_subs s c) -> ~ In p (pat_subs (snd (ps_step choice s o)) c).
+Proof.
+  intros NR H. destruct o; simpl.
+  - pose proof (proj2 (subscribe_subs s c0 names c)) as X. destruct (subscribe s c0 names). simpl in *. rewrite X. exact H.
+  - pose proof (proj1 (psubscribe_subs s c0 names c) p) as X. destruct (psubscribe s c0 names). simpl in *.
+    rewrite X. intros [Y|[-> Y]]; [contradiction | exact (NR eq_refl Y)].
+  - pose proof (proj2 (unsubscribe_subs s c0 names c)) as X. destruct (unsubscribe s c0 names). simpl in *. rewrite X. exact H.
+  - pose proof (proj1 (punsubscribe_subs s c0 names c) p) as X. destruct (punsubscribe s c0 names). simpl in *. rewrite X. tauto.
+  - rewrite (proj2 (unsubscribe_all_subs s c0 c)). destruct (c =? c0); [simpl; tauto | exact H].
+  - exact H.
+Qed.
+Lemma run_keeps_unsub_ch c ch ops : forall s,
+  Forall (no_resub_ch c ch) ops -> ~ In ch (chan_subs s c) -> ~ In ch (chan_subs (ps_run s ops) c).
+Proof.
+  induction ops as [|o r IH]; intros s F H; simpl; [exact H|].
+  inversion F; subst. apply IH; [assumption|]. apply step_keeps_unsub_ch; assumption.
+Qed.
+Lemma run_keeps_unsub_pat c p ops : forall s,
+  Forall (no_resub_pat c p) ops -> ~ In p (pat_subs s c) -> ~ In p (pat_subs (ps_run s ops) c).
+Proof.
+  induction ops as [|o r IH]; intros s F H; simpl; [exact H|].
+  inversion F; subst. apply IH; [assumption|]. apply step_keeps_unsub_pat; assumption.
+Qed.
+
+Lemma after_unsubscribe_nothing choice s c names ch ops :
+  Inv s -> In ch names -> Forall (no_resub_ch c ch) ops ->
+  ~ In (c, None) (publish_with choice (ps_run (snd (unsubscribe s c (Some names))) ops) ch).
+Proof.
+  intros HI Hn F H.
+  assert (HI' : Inv (ps_run (snd (unsubscribe s c (Some names))) ops)) by (apply run_inv, unsubscribe_inv; exact HI).
+  apply (publish_with_sound _ _ _ _ _ HI') in H. simpl in H. revert H.
+  apply run_keeps_unsub_ch; [exact F|].
+  rewrite (proj1 (unsubscribe_subs s c (Some names) c) ch). tauto.
+Qed.
+Lemma after_punsubscribe_nothing choice s c names p ch ops :
+  Inv s -> In p names -> Forall (no_resub_pat c p) ops ->
+  ~ In (c, Some p) (publish_with choice (ps_run (snd (punsubscribe s c (Some names))) ops) ch).
+Proof.
+  intros HI Hn F H.
+  assert (HI' : Inv (ps_run (snd (punsubscribe s c (Some names))) ops)) by (apply run_inv, punsubscribe_inv; exact HI).
+  apply (publish_with_sound _ _ _ _ _ HI') in H. simpl in H. destruct H as [H _]. revert H.
+  apply run_keeps_unsub_pat; [exact F|].
+  rewrite (proj1 (punsubscribe_subs s c (Some names) c) p). tauto.
+Qed.
+
+Lemma not_sub_no_resub c o : not_sub_by c o -> (forall ch, no_resub_ch c ch o) /\ (forall p, no_resub_pat c p o).
+Proof. destruct o; simpl; intros H; split; intros; auto; try tauto; intros E; congruence. Qed.
+
+(** after unsubscribe_all (disconnect cleanup) the connection receives nothing, on any channel,
+    until it subscribes again *)
+Lemma after_unsubscribe_all_nothing choice s c ch ops :
+  Inv s -> Forall (not_sub_by c) ops ->
+  ~ In c (map fst (publish_with choice (ps_run (unsubscribe_all s c) ops) ch)).
+Proof.
+  intros HI F H.
+  assert (HI' : Inv (ps_run (unsubscribe_all s c) ops)) by (apply run_inv, unsubscribe_all_inv; exact HI).
+  apply in_map_iff in H. destruct H as [[c0 t] [E H]]. simpl in E. subst c0.
+  apply (publish_with_sound _ _ _ _ _ HI') in H.
+  destruct t as [p|]; simpl in H.
+  - destruct H as [H _]. revert H. apply run_keeps_unsub_pat.
+    + eapply Forall_impl; [|exact F]. intros o X. apply not_sub_no_resub. exact X.
+    + rewrite (proj2 (unsubscribe_all_subs s c c)), Z.eqb_refl. simpl. tauto.
+  - revert H. apply run_keeps_unsub_ch.
+    + eapply Forall_impl; [|exact F]. intros o X. apply not_sub_no_resub. exact X.
+    + rewrite (proj1 (unsubscribe_all_subs s c c)), Z.eqb_refl. simpl. tauto.
+Qed.
+
+(** ---- acknowledgements ---- *)
+Definition total_subs (s : pubsub) (c : Z) : Z := len (chan_subs s c) + len (pat_subs s c).
+
+Lemma sub_loop_app c : forall l1 l2 mine other g,
+  sub_loop c (l1 ++ l2) mine other g =
+  match sub_loop c l1 mine other g with
+  | (r1, m1, g1) => match sub_loop c l2 m1 other g1 with
+                    | (r2, m2, g2) => (r1 ++ r2, m2, g2)
+                    end
+  end.
+Proof.
+  induction l1 as [|n l1 IH]; intros l2 mine other g; simpl.
+  - destruct (sub_loop c l2 mine other g) as [[r2 m2] g2]. reflexivity.
+  - rewrite IH.
+    destruct (sub_loop c l1 _ other _) as [[r1 m1] g1].
+    destruct (sub_loop c l2 m1 other g1) as [[r2 m2] g2]. reflexivity.
+Qed.
+
+Lemma cset_cset c i1 i2 m : cset c i2 (cset c i1 m) = cset c i2 m.
+Proof. unfold cset. simpl. rewrite Z.eqb_refl, cremove_idem. reflexivity. Qed.
+
+(** SUBSCRIBE a b c = SUBSCRIBE a; SUBSCRIBE b; SUBSCRIBE c (acknowledgements concatenated) *)
+Lemma subscribe_app s c l1 l2 :
+  subscribe s c (l1 ++ l2) =
+  match subscribe s c l1 with
+  | (r1, s1) => match subscribe s1 c l2 with (r2, s2) => (r1 ++ r2, s2) end
+  end.
+Proof.
+  unfold subscribe, conn_info. rewrite sub_loop_app.
+  destruct (sub_loop c l1 _ _ (ps_ch s)) as [[r1 m1] g1]. cbn [ps_conns ps_ch ps_pat].
+  rewrite clookup_cset_eq. cbn [si_ch si_pat].
+  destruct (sub_loop c l2 m1 _ g1) as [[r2 m2] g2]. rewrite cset_cset. reflexivity.
+Qed.
+Lemma psubscribe_app s c l1 l2 :
+  psubscribe s c (l1 ++ l2) =
+  match psubscribe s c l1 with
+  | (r1, s1) => match psubscribe s1 c l2 with (r2, s2) => (r1 ++ r2, s2) end
+  end.
+Proof.
+  unfold psubscribe, conn_info. rewrite sub_loop_app.
+  destruct (sub_loop c l1 _ _ (ps_pat s)) as [[r1 m1] g1]. cbn [ps_conns ps_ch ps_pat].
+  rewrite clookup_cset_eq. cbn [si_ch si_pat].
+  destruct (sub_loop c l2 m1 _ g1) as [[r2 m2] g2]. rewrite cset_cset. reflexivity.
+Qed.
+
+(** one name: the acknowledgement carries the connection's subscription count after the
+    operation, and is_new tells whether the subscription was added *)
+Lemma subscribe_single s c n :
+  fst (subscribe s c [n]) =
+  [{| r_name := n; r_count := total_subs (snd (subscribe s c [n])) c;
+      r_new := negb (bmem n (chan_subs s c)) |}].
+Proof.
+  unfold total_subs, chan_subs, pat_subs, subscribe, conn_info. fold (cinfo (ps_conns s) c).
+  cbn [sub_loop fst snd ps_conns]. rewrite cinfo_cset_eq. reflexivity.
+Qed.
+Lemma psubscribe_single s c n :
+  fst (psubscribe s c [n]) =
+  [{| r_name := n; r_count := total_subs (snd (psubscribe s c [n])) c;
+      r_new := negb (bmem n (pat_subs s c)) |}].
+Proof.
+  unfold total_subs, chan_subs, pat_subs, psubscribe, conn_info. fold (cinfo (ps_conns s) c).
+  cbn [sub_loop fst snd ps_conns]. rewrite cinfo_cset_eq. cbn [si_ch si_pat]. rewrite Z.add_comm. reflexivity.
+Qed.
+
+(** unsubscribe of a connection that has an entry: one acknowledgement per name, the k-th
+    carrying the count after the first k+1 names were removed *)
+Definition bremove_all (names mine : list bytes) : list bytes :=
+  fold_left (fun m n => bremove n m) names mine.
+Lemma unsub_loop_counts c : forall names mine other g rs m' g' k r,
+  unsub_loop c names mine other g = (rs, m', g') -> nth_error rs k = Some r ->
+  r_count r = len (bremove_all (firstn (S k) names) mine) + other /\ r_new r = false /\
+  nth_error names k = Some (r_name r).
+Proof.
+  induction names as [|n0 rest IH]; intros mine other g rs m' g' k r H N; simpl in H.
+  - injection H as <- _ _. destruct k; discriminate.
+  - destruct (unsub_loop c rest (bremove n0 mine) other _) as [[rs1 m1] g1] eqn:E.
+    injection H as <- _ _. destruct k as [|k]; simpl in N.
+    + injection N as <-. simpl. auto.
+    + destruct (IH _ _ _ _ _ _ _ _ E N) as [A [B C]]. simpl. auto.
+Qed.
+Lemma unsub_loop_length c : forall names mine other g rs m' g',
+  unsub_loop c names mine other g = (rs, m', g') -> length rs = length names.
+Proof.
+  intros. destruct (unsub_loop_spec _ _ _ _ _ _ _ _ H) as [_ [_ [_ [_ X]]]].
+  rewrite <- X, map_length. reflexivity.
+Qed.
+
+Lemma unsubscribe_acks s c names info :
+  clookup c (ps_conns s) = Some info ->
+  length (fst (unsubscribe s c (Some names))) = length names /\
+  forall k r, nth_error (fst (unsubscribe s c (Some names))) k = Some r ->
+    nth_error names k = Some (r_name r) /\ r_new r = false /\
+    r_count r = len (bremove_all (firstn (S k) names) (chan_subs s c)) + len (pat_subs s c).
+Proof.
+  intros L. unfold unsubscribe, chan_subs, pat_subs. rewrite L, (cinfo_lookup _ _ _ L).
+  destruct (unsub_loop c names (si_ch info) _ (ps_ch s)) as [[rs m] g] eqn:E. cbn [fst].
+  split; [eapply unsub_loop_length; exact E|].
+  intros k r N. destruct (unsub_loop_counts _ _ _ _ _ _ _ _ _ _ E N) as [A [B C]]. auto.
+Qed.
+Lemma punsubscribe_acks s c names info :
+  clookup c (ps_conns s) = Some info ->
+  length (fst (punsubscribe s c (Some names))) = length names /\
+  forall k r, nth_error (fst (punsubscribe s c (Some names))) k = Some r ->
+    nth_error names k = Some (r_name r) /\ r_new r = false /\
+    r_count r = len (bremove_all (firstn (S k) names) (pat_subs s c)) + len (chan_subs s c).
+Proof.
+  intros L. unfold punsubscribe, chan_subs, pat_subs. rewrite L, (cinfo_lookup _ _ _ L).
+  destruct (unsub_loop c names (si_pat info) _ (ps_pat s)) as [[rs m] g] eqn:E. cbn [fst].
+  split; [eapply unsub_loop_length; exact E|].
+  intros k r N. destruct (unsub_loop_counts _ _ _ _ _ _ _ _ _ _ E N) as [A [B C]]. auto.
+Qed.
+(** ... and the last acknowledgement carries the count of the resulting state *)
+Lemma bremove_all_In names : forall mine n, In n (bremove_all names mine) <-> In n mine /\ ~ In n names.
+Proof.
+  induction names as [|n0 r IH]; intros mine n; simpl; [tauto|].
+  unfold bremove_all in *. simpl. rewrite IH, In_bremove. split.
+  - intros [[A B] C]. split; [exact A | intros [X|X]; [congruence | contradiction]].
+  - intros [A B]. split; [split; [exact A | intros X; apply B; auto] | intros X; apply B; auto].
+Qed.
